@@ -170,6 +170,18 @@ func randomOrder(r *core.Rand, tree []blk, pDup, pHdr, orderly int) []op {
 			ops = append(ops, op{'h', ids[r.Intn(len(ids))]})
 		}
 	}
+	// argument variants that must not matter: BFNoPoWCheck on a block with valid
+	// proof of work, skipCheckpoint on a chain without checkpoints
+	for i := range ops {
+		if r.Chance(1, 6) {
+			switch ops[i].kind {
+			case 'b':
+				ops[i].kind = 'n'
+			case 'h':
+				ops[i].kind = 'k'
+			}
+		}
+	}
 	return ops
 }
 
@@ -321,6 +333,7 @@ func generate(g *core.Gen) {
 
 	genVariedWork(g)
 	genInvRec(g)
+	genHardening(g)
 
 	// ---- malformed lines
 	for _, l := range []string{
@@ -391,6 +404,64 @@ func genVariedWork(g *core.Gen) {
 	}
 }
 
+// genHardening: restart with a changed configuration between lives, BFFastAdd
+// deliveries, independent chains run concurrently.
+func genHardening(g *core.Gen) {
+	r := g.R
+	// ---- clean restarts on the same database, configuration varied between lives;
+	// header-only nodes and orphans do not survive, statuses and the chain do
+	for i, n := 0, g.N(60, 500); i < n; i++ {
+		size := 4 + r.Intn(g.N(22, 60))
+		tree := relabel(r, randTree(r, size, r.Intn(3), int(r.Pick(0, 80, 200))))
+		base := randomOrder(r, tree, int(r.Pick(0, 100)), int(r.Pick(0, 200, 400)), int(r.Pick(30, 70, 95)))
+		var ops []op
+		for _, o := range base {
+			ops = append(ops, o)
+			if r.Chance(1, 7) {
+				ops = append(ops, op{'R', r.Intn(8)})
+			}
+		}
+		ops = append(ops, op{'R', r.Intn(8)})
+		// after the last restart deliver everything once more (what was only pooled is accepted now)
+		ids := idsOf(tree)
+		shuffle(r, ids)
+		ops = append(ops, blockOps(ids[:minInt(len(ids), 6)])...)
+		g.Case("restart", nontrivial(tree, ops), mkLine(tree, ops))
+	}
+	// ---- BFFastAdd deliveries (checks skipped by design), mixed with normal ones
+	for i, n := 0, g.N(40, 300); i < n; i++ {
+		size := 4 + r.Intn(g.N(18, 40))
+		tree := relabel(r, randTree(r, size, r.Intn(3), int(r.Pick(100, 250, 400))))
+		ops := randomOrder(r, tree, 50, int(r.Pick(0, 150)), int(r.Pick(50, 90, 100)))
+		for i := range ops {
+			if (ops[i].kind == 'b' || ops[i].kind == 'n') && r.Chance(1, 2) {
+				ops[i].kind = 'f'
+			}
+		}
+		g.Case("fast-add", nontrivial(tree, ops), mkLine(tree, ops))
+	}
+	// ---- 8 independent chains at once (no hidden shared state between instances)
+	for i, n := 0, g.N(4, 30); i < n; i++ {
+		parts := []string{"C02", "par"}
+		for k := 0; k < 8; k++ {
+			size := 3 + r.Intn(14)
+			var tree []blk
+			if k%4 == 3 {
+				tree = pacedTree(r, randTree(r, size, 1, 100))
+			} else {
+				tree = relabel(r, randTree(r, size, r.Intn(3), int(r.Pick(0, 150))))
+			}
+			ops := randomOrder(r, tree, 100, int(r.Pick(0, 300)), int(r.Pick(30, 80, 100)))
+			if k%3 == 0 {
+				ops = append(ops, op{'R', k})
+				ops = append(ops, op{'b', tree[0].id})
+			}
+			parts = append(parts, fmtTree(tree), fmtOps(ops))
+		}
+		g.Case("concurrent-8", true, strings.Join(parts, " "))
+	}
+}
+
 func hasIR(ops []op) bool {
 	for _, o := range ops {
 		if o.kind == 'i' || o.kind == 'r' {
@@ -428,6 +499,9 @@ func genInvRec(g *core.Gen) {
 			}
 			if r.Chance(1, 3) {
 				ops = append(ops, op{'b', ids[r.Intn(len(ids))]})
+			}
+			if r.Chance(1, 6) {
+				ops = append(ops, op{'R', r.Intn(8)})
 			}
 		}
 		cand = append(cand, struct {
